@@ -43,7 +43,7 @@ add("C09", "E1 mapspace", "model_checking", "bounded-exhaustive exploration of m
     "Trusted: rustc/std; pgmc/src/dec.rs; the reference model for expected counts/orders. String uniqueness is not demanded.", "DESIGN.md §4 C09")
 add("C10", "E1 mapspace", "model_checking", "bounded-exhaustive exploration of (writer release, reader release) histories on two real builds linked into one binary, differential oracle",
     "For every mapping of the scopes and both writers (vendored 5.5.0 snapshot, current tree) the file is parsed by both readers; a reader may reject only with WrongVersion, otherwise the complete query universe "
-    "must be answered identically by both readers. All four (writer, reader) pairs, every state. Families as in C02 plus MS-H2 far-apart repeats (two entries sharing their original name with 23000 (thorough also 66000) filler methods / > 65536 distinct strings between them).",
+    "must be answered identically by both readers. All four (writer, reader) pairs, every state. Families as in C02 plus MS-H2 far-apart repeats (two entries sharing their original name with 23000 (66000) filler methods / > 65536 distinct strings between them).",
     "Trusted: rustc/std; the vendored snapshot /verif/pinned as 'the pinned release'.", "DESIGN.md §4 C10")
 add("C11", "E4 bytefault", "fault_enumeration", "exhaustive enumeration of crash points (every strict prefix) and single-field header edits of every base file, real parser, layout-derived oracle",
     "Every strict prefix of every base cache file (tens of thousands of files from exhaustive mapping scopes) and every single-field edit of the 24-byte header are parsed by the real parser; the expected verdict "
